@@ -499,6 +499,52 @@ func init() {
 			t := e.namedType("hash/crc32", "Table")
 			return Ptr{c: e.newCell(types.NewArray(types.Typ[types.Uint32], 1))}.withType(t)
 		},
+		// CRC32c over a symbolic buffer is out of reach for the solvers (see DESIGN §1.4):
+		// the packet checksum is an uninterpreted function of the checksummed bytes
+		// (equal byte terms -> the same value), the real CRC runs in native replays.
+		hname("generatePacketChecksum"): func(e *Engine, fn *ssa.Function, a []Value) Value {
+			sl := a[0].(SliceV)
+			if sl.len < 12 {
+				e.vc(e.ts.True, "generatePacketChecksum: slice bounds out of range")
+			}
+			var sb strings.Builder
+			for i := 0; i < sl.len; i++ {
+				if i >= 8 && i < 12 {
+					continue
+				}
+				fmt.Fprintf(&sb, "%d,", e.kid(sl.arr, sl.off+i).v.(*Term).id)
+			}
+			key := sb.String()
+			if e.crcMemo == nil {
+				e.crcMemo = map[string]*Term{}
+			}
+			if t, ok := e.crcMemo[key]; ok {
+				return t
+			}
+			e.crcSeq++
+			t := e.newVar(fmt.Sprintf("crc%d", e.crcSeq), BV(32))
+			e.crcMemo[key] = t
+			// Ackermann congruence with earlier applications on buffers of the same length
+			var cur []*Term
+			for i := 0; i < sl.len; i++ {
+				if i >= 8 && i < 12 {
+					continue
+				}
+				cur = append(cur, e.kid(sl.arr, sl.off+i).v.(*Term))
+			}
+			for _, prev := range e.crcApps {
+				if len(prev.bytes) != len(cur) {
+					continue
+				}
+				same := e.ts.True
+				for i := range cur {
+					same = e.ts.And(same, e.ts.Eq(cur[i], prev.bytes[i]))
+				}
+				e.addPC(e.ts.Or(e.ts.Not(same), e.ts.Eq(t, prev.val)))
+			}
+			e.crcApps = append(e.crcApps, crcApp{cur, t})
+			return t
+		},
 		"hash/crc32.Update": func(e *Engine, fn *ssa.Function, a []Value) Value {
 			e.crcSeq++
 			return e.newVar(fmt.Sprintf("crc%d", e.crcSeq), BV(32))
